@@ -61,6 +61,7 @@ def scenarios(tier):
                     # a dead peer whose socket also refuses the TestRequest: silent, and the write of the probe fails
                     for fault in ("reset-once", "reset-always", "pipe-always", "runtime-always"):
                         out.append((h, role, ph, "silent-write-fails", fault))
+                    out.append((h, role, ph, "silent-drain-blocks", 0))
                     # the application renumbers the session (reset_seq_num) while a TestRequest is outstanding: a different feature used
                     # inside the probe's window changes nothing about the probe
                     out.append((h, role, ph, "reset-while-outstanding", 0))
@@ -331,6 +332,32 @@ async def scenario(acc, clock, sc, cid, rnd=None):
                 s.V("silent:disconnect-late", f"disconnected {s.tdisc - t0:.3f}s after the last inbound frame, h={h}")
             if s.ep.disconnects > 1:
                 s.V("watchdog:on_disconnect-count", f"on_disconnect called {s.ep.disconnects} times")
+            return True
+        if kind == "silent-drain-blocks":
+            # a dead peer that has also stopped reading: the TestRequest is written, its drain() never returns (the socket buffer is
+            # full).  The watchdog must not hang on its own probe: the connection is dropped by about three intervals all the same
+            never = asyncio.Event()
+            blocked = {"n": 0}
+
+            async def drain_hook():
+                data = s.ep.vf_tap.items[-1][1] if s.ep.vf_tap.items else b""
+                if b"\x0135=1\x01" in data:
+                    blocked["n"] += 1
+                    await never.wait()
+            s.ep.vf_writer.drain_hook = drain_hook
+            t0 = s.last_feed()
+            await run_until(s, 3 * h + 6)
+            acc.oracle("silent:disconnect-time")
+            acc.add("probes_whose_drain_never_returned", blocked["n"])
+            if not blocked["n"]:
+                s.V("silent:no-testrequest", f"peer silent for {3 * h + 6}s, no TestRequest was attempted")
+            elif not s.disconnected():
+                s.V("silent:not-disconnected:watchdog-blocked-in-drain", f"peer silent for {3 * h + 6}s, the TestRequest's drain() never returned: state {s.ep.connection_state.name}")
+            elif s.tdisc is not None and s.tdisc - t0 > 3 * h + 2 + eps:
+                s.V("silent:disconnect-late", f"disconnected {s.tdisc - t0:.3f}s after the last inbound frame, h={h}")
+            if s.ep.disconnects > 1:
+                s.V("watchdog:on_disconnect-count", f"on_disconnect called {s.ep.disconnects} times")
+            never.set()
             return True
         if kind == "periodic":
             p = par
